@@ -508,6 +508,187 @@ Run()
   }
   return 0;
 }
+
+// mode=storm: maximal simultaneity of the claim loop.  Every round starts exactly N threads that are released from
+// a spin barrier, all probing from the same position, and hold their IDs until all N hold one; no injected delays
+// (they would spread the claims out).  Checks range and uniqueness only; tens of thousands of rounds per process.
+void
+StormBody(int pattern, uint64_t uidbase, int idx, std::atomic<int> *gate, std::atomic<int> *holders)
+{
+  const uint64_t uid = uidbase + static_cast<uint64_t>(idx) + 1;
+  switch (pattern) {
+    case 0: tl_probe_start = 0; break;
+    case 1: tl_probe_start = static_cast<int64_t>(kN - 1); break;
+    case 2: tl_probe_start = static_cast<int64_t>((idx / 2) % kN); break;  // pairs collide
+    default: tl_probe_start = -1; break;
+  }
+  while (gate->load(std::memory_order_acquire) == 0) {
+  }
+  const auto id = IDManager::GetThreadID();
+  if (id >= kN) {
+    Violate("C05", "id-out-of-range", Fmt("GetThreadID returned %zu with capacity %zu (storm, pattern %d)", id, kN, pattern));
+  } else {
+    const auto prev = g_owner[id].exchange(uid, kMo);
+    if (prev != 0) {
+      Violate("C05", "same-id-held-by-two-running-threads",
+              Fmt("capacity=%zu storm pattern=%d: thread uid=%" PRIu64 " obtained id %zu while thread uid=%" PRIu64
+                  " is still executing user code with the same id",
+                  kN, pattern, uid, id, prev));
+    }
+    g_slot_claims[id].fetch_add(1, kRlx);
+  }
+  holders->fetch_add(1, kMo);
+  const auto t0 = NowNs();
+  while (holders->load(kMo) < static_cast<int>(kN) && NowNs() - t0 < 20000000000ULL) {
+  }
+  if (IDManager::GetThreadID() != id) Violate("C05", "id-not-stable", Fmt("storm: %zu then %zu", id, IDManager::GetThreadID()));
+  if (id < kN) g_owner[id].store(0, kMo);
+}
+
+int
+RunStorm()
+{
+  Result res;
+  Rng r;
+  r.Seed(g_cfg.seed * 99991 + kN);
+  const uint64_t rounds = 2500 * g_cfg.scale;
+  uint64_t done = 0;
+  const auto t0 = NowNs();
+  for (uint64_t round = 0; round < rounds; ++round) {
+    if ((round & 63) == 0 && NowNs() - t0 > 60ULL * 1000000000ULL) break;
+    const int pattern = static_cast<int>(r.Below(4));
+    g_pattern_sig.fetch_or(1ULL << pattern);
+    std::atomic<int> gate{0}, holders{0};
+    std::vector<std::thread> ths;
+    for (size_t i = 0; i < kN; ++i) ths.emplace_back(StormBody, pattern, round * kN, static_cast<int>(i), &gate, &holders);
+    gate.store(1, std::memory_order_release);
+    const auto tw = NowNs();
+    while (holders.load(kMo) < static_cast<int>(kN)) {
+      if (NowNs() - tw > g_cfg.hang_s * 1000000000ULL) {
+        Violate("C14", "GetThreadID-does-not-return:storm-of-N-simultaneous-claims",
+                Fmt("capacity=%zu storm round %" PRIu64 ": only %d of %zu simultaneous claimers obtained an ID within %" PRIu64 " s although all IDs were free", kN,
+                    round, holders.load(), kN, g_cfg.hang_s));
+        res.Add("hangs", 1);
+        res.counters["evaluations"] = done * kN;
+        EmitResult(res, "hang");
+        fflush(stdout);
+        _exit(0);
+      }
+      sched_yield();
+    }
+    for (auto &t : ths) t.join();
+    ++done;
+    if (g_log.n_viol.load() != 0) break;
+  }
+  res.Add("storm_rounds", done);
+  res.Add("thread_lifetimes", done * kN);
+  res.counters["evaluations"] = done * kN;
+  for (size_t i = 0; i < kN && i < 64; ++i) {
+    if (g_slot_claims[i].load()) res.signatures.push_back(Fmt("storm:N=%zu:slot-%zu-claimed", kN, i));
+  }
+  for (int p = 0; p < 4; ++p) {
+    if (g_pattern_sig.load() & (1ULL << p)) res.signatures.push_back(Fmt("storm:N=%zu:probe-pattern-%d", kN, p));
+  }
+  res.samples.push_back(Fmt("{\"mode\":\"storm\",\"capacity\":%zu,\"rounds\":%" PRIu64 ",\"seed\":%" PRIu64 "}", kN, done, g_cfg.seed));
+  EmitResult(res, "ok");
+  return 0;
+}
+
+// mode=churnstorm: the ID table is kept full and over-subscribed: 3N driver threads each start one short-lived worker
+// after the other; a worker claims an ID (spinning while the table is full), checks range / uniqueness / that every
+// heartbeat of earlier owners of its ID is expired, holds the ID for a few tens of microseconds and exits.  No
+// injected delays: the point is the number of simultaneous claimers racing for a slot that was just released.
+std::atomic<uint64_t> g_cs_workers{0};
+std::atomic<bool> g_cs_stop{false};
+
+void
+ChurnWorker(uint64_t hold_ns)
+{
+  const auto uid = g_uid.fetch_add(1) + 1;
+  tl_probe_start = -1;
+  const auto id = IDManager::GetThreadID();
+  if (id >= kN) {
+    Violate("C05", "id-out-of-range", Fmt("GetThreadID returned %zu with capacity %zu (churn storm)", id, kN));
+    return;
+  }
+  const auto prev = g_owner[id].exchange(uid, kMo);
+  if (prev != 0) {
+    Violate("C05", "same-id-held-by-two-running-threads",
+            Fmt("capacity=%zu churn storm: thread uid=%" PRIu64 " obtained id %zu while thread uid=%" PRIu64 " is still executing user code with the same id",
+                kN, uid, id, prev));
+  }
+  {
+    std::lock_guard<std::mutex> g{g_hist_mtx[id]};
+    size_t alive = 0;
+    for (auto &wp : g_hist[id]) alive += wp.expired() ? 0 : 1;
+    if (!g_hist[id].empty()) g_reuse_total.fetch_add(1, kRlx);
+    if (alive != 0) {
+      Violate("C15", "id-reused-while-an-earlier-owners-heartbeat-is-unexpired",
+              Fmt("capacity=%zu churn storm: id %zu was handed to thread uid=%" PRIu64 " although %zu heartbeat(s) of earlier owners are not expired", kN, id, uid,
+                  alive));
+    }
+    if (g_hist[id].size() > 8) g_hist[id].erase(g_hist[id].begin(), g_hist[id].begin() + 4);
+    g_hist[id].push_back(IDManager::GetHeartBeat());
+  }
+  g_slot_claims[id].fetch_add(1, kRlx);
+  SpinNs(hold_ns);
+  if (IDManager::GetThreadID() != id) Violate("C05", "id-not-stable", Fmt("churn storm: %zu then %zu", id, IDManager::GetThreadID()));
+  if (prev == 0) g_owner[id].store(0, kMo);
+  g_cs_workers.fetch_add(1, kRlx);
+}
+
+int
+RunChurnStorm()
+{
+  Result res;
+  Rng r;
+  r.Seed(g_cfg.seed * 424243 + kN);
+  const size_t drivers = std::min<size_t>(3 * kN, 48);
+  const uint64_t per_driver = 400 * g_cfg.scale;
+  const uint64_t hold_ns = r.Range(20000, 120000);
+  std::vector<std::thread> ds;
+  const auto t0 = NowNs();
+  for (size_t d = 0; d < drivers; ++d) {
+    ds.emplace_back([&, d] {
+      for (uint64_t i = 0; i < per_driver && !g_cs_stop.load(kRlx); ++i) {
+        std::thread w{ChurnWorker, hold_ns};
+        w.join();
+        if (g_log.n_viol.load(kRlx) != 0) g_cs_stop.store(true, kRlx);
+      }
+    });
+  }
+  // watchdog
+  uint64_t last = ~0ULL, last_change = NowNs();
+  while (true) {
+    SleepNs(20000000);
+    const auto w = g_cs_workers.load();
+    if (w >= drivers * per_driver || g_cs_stop.load()) break;
+    const auto now = NowNs();
+    if (w != last) {
+      last = w;
+      last_change = now;
+    } else if (now - last_change > g_cfg.hang_s * 1000000000ULL) {
+      Violate("C14", "GetThreadID-does-not-return:churn-storm",
+              Fmt("capacity=%zu churn storm with %zu drivers: no worker obtained an ID for %" PRIu64 " s although workers keep exiting", kN, drivers, g_cfg.hang_s));
+      res.Add("hangs", 1);
+      res.counters["evaluations"] = w;
+      EmitResult(res, "hang");
+      fflush(stdout);
+      _exit(0);
+    }
+    if (now - t0 > 90ULL * 1000000000ULL) g_cs_stop.store(true);
+  }
+  for (auto &d : ds) d.join();
+  res.Add("churn_storm_workers", g_cs_workers.load());
+  res.Add("thread_lifetimes", g_cs_workers.load());
+  res.Add("id_reuses_checked", g_reuse_total.load());
+  res.counters["evaluations"] = g_cs_workers.load();
+  res.signatures.push_back(Fmt("churnstorm:N=%zu:drivers=%zu", kN, drivers));
+  res.samples.push_back(Fmt("{\"mode\":\"churnstorm\",\"capacity\":%zu,\"drivers\":%zu,\"workers\":%" PRIu64 ",\"hold_ns\":%" PRIu64 "}", kN, drivers,
+                            g_cs_workers.load(), hold_ns));
+  EmitResult(res, "ok");
+  return 0;
+}
 }  // namespace idm
 
 /*##############################################################################
@@ -1384,6 +1565,8 @@ main(int argc, char **argv)
   g_cfg.pace_ns = a.U("pace", 2000);
   g_cfg.fwdchaos = a.U("fwdchaos", 0);
   if (g_cfg.mode == "id") return idm::Run();
+  if (g_cfg.mode == "storm") return idm::RunStorm();
+  if (g_cfg.mode == "churnstorm") return idm::RunChurnStorm();
   if (g_cfg.mode == "epoch") return ep::Run();
   if (g_cfg.mode == "model") return md::Run();
   if (g_cfg.mode == "long") return md::RunLong();
